@@ -209,6 +209,12 @@ func (w *World) lockInfo() *lockInfo {
 		for _, mc := range w.Closures[fn] {
 			for _, r := range *mc.Referrers() {
 				if c, ok := r.(ssa.CallInstruction); ok {
+					// the body of a range-over-func loop: the iterator calls it back on this
+					// goroutine before the range statement completes
+					if _, isCall := c.(*ssa.Call); isCall && fn.Synthetic == "range-over-func yield" && c.Common().Value != ssa.Value(mc) {
+						li.callers[fn] = append(li.callers[fn], c)
+						continue
+					}
 					if cal := c.Common().StaticCallee(); cal != nil && !w.IsMod[cal] {
 						if _, isCall := c.(*ssa.Call); isCall && syncCallback(cal) {
 							// (*sync.Once).Do(f) runs f on the calling goroutine before it returns:
